@@ -1,6 +1,7 @@
 package props
 
 import (
+	"go/constant"
 	"fmt"
 	"go/token"
 	"sort"
@@ -111,7 +112,7 @@ func encoderHeadTable(e *Env) map[int]string {
 		}
 	}
 	// emission: 1+nfollow bytes, first = type|ai, then n big-endian
-	e.requireStoreIn("TABLE", fn, "make([]byte,(const:1 + phi(const:0|const:1|const:2|const:4|const:8)))[const:0]",
+	e.requireStoreIn("TABLE", fn, "make([]byte,{(const:1 + *)|(* + const:1)})[const:0]",
 		"(param:t | phi(const:24|const:25|const:26|const:27|conv(param:n)))", "first byte = major type | additional information")
 	found := false
 	for _, b := range fn.Blocks {
@@ -124,7 +125,7 @@ func encoderHeadTable(e *Env) map[int]string {
 			if !ok || prov.Of(st.Val) != "conv(phi((↺ >> const:8)|param:n))" {
 				continue
 			}
-			if prov.Match("(phi((phi(const:0|const:1|const:2|const:4|const:8) - const:1)|(↺ - const:1)) + const:1)", prov.Of(ia.Index)) {
+			if descendingFill(ia) {
 				found = true
 			}
 		}
@@ -222,8 +223,42 @@ func decoderHeadTable(e *Env) map[int]string {
 	// value assembly and exact reads
 	e.requireGates("GATE", fn, okOut, noCfg, gate.CallOK("D.first", "(*cbor.Decoder).ReadByte", "param:d"))
 	e.requireResult("RESULT", fn, okOut, 0, "(call:(*cbor.Decoder).ReadByte(param:d)#0 & const:224)", "major type = first byte & 0xe0")
-	e.requireResult("RESULT", fn, okOut, 1, "phi(conv("+tAI+")|phi(((↺ << const:8) | conv(make([]byte,*)[*]))|const:0))",
-		"the direct value, or the big-endian accumulation n = n<<8 | follow[i]")
+	// the value: the additional information itself below 24 (evaluated per
+	// head), otherwise the big-endian accumulation n = n<<8 | follow[i]
+	for ai := 0; ai < 28; ai++ {
+		cfg := assumeVal(tAI, strconv.Itoa(ai))
+		ctx := gate.New(e.P, e.P.VTA(), cfg.assume...)
+		live := map[*ssa.BasicBlock]bool{}
+		for _, b := range ctx.ReachableBlocks(fn) {
+			live[b] = true
+		}
+		okAll, n := true, 0
+		why := ""
+		for _, r := range ctx.SuccessReturns(fn, okOut) {
+			if !live[r.Block()] || len(r.Results) < 2 {
+				continue
+			}
+			n++
+			if ai < 24 {
+				if v, ok := ctx.EvalValue(fn, r.Results[1]); !ok || v != strconv.Itoa(ai) {
+					okAll, why = false, fmt.Sprintf("returns %q (evaluated: %v)", v, ok)
+				}
+			} else if t := prov.Of(r.Results[1]); !prov.Match("*((↺ << const:8) | conv(make([]byte,*)[*]))*", t) {
+				okAll, why = false, "returns "+t
+			}
+		}
+		key := fmt.Sprintf("decodeTypedUint:value(ai=%d)", ai)
+		switch {
+		case n == 0:
+			e.R.Fail("RESULT", key, e.P.Pos(fn.Pos()), "no successful return is reachable for this head")
+		case okAll && ai < 24:
+			e.R.OK("RESULT", key, e.P.Pos(fn.Pos()), "the value is the additional information itself")
+		case okAll:
+			e.R.OK("RESULT", key, e.P.Pos(fn.Pos()), "the value is the big-endian accumulation of the follow bytes")
+		default:
+			e.R.Fail("RESULT", key, e.P.Pos(fn.Pos()), "wrong value for this head: "+why)
+		}
+	}
 	return out
 }
 
@@ -331,4 +366,89 @@ func encoderHeadTableQuiet(e *Env) map[int]string {
 	e2 := *e
 	e2.R = coreScratch(e)
 	return encoderHeadTable(&e2)
+}
+
+// descendingFill: the index of the store runs over nfollow, nfollow-1, ..., 1
+// where 1+nfollow is the length of the slice written: the index is i + c for
+// a counter i that starts at nfollow - c, is decremented by one per iteration
+// and stops after the value 1 - c (c = 0 or 1).
+func descendingFill(ia *ssa.IndexAddr) bool {
+	isConst := func(v ssa.Value, n int64) bool {
+		k, ok := v.(*ssa.Const)
+		return ok && k.Value != nil && k.Value.Kind() == constant.Int && k.Int64() == n
+	}
+	c := int64(0)
+	var ph *ssa.Phi
+	switch x := ia.Index.(type) {
+	case *ssa.Phi:
+		ph = x
+	case *ssa.BinOp:
+		p, ok := x.X.(*ssa.Phi)
+		if !ok || x.Op != token.ADD || !isConst(x.Y, 1) {
+			return false
+		}
+		ph, c = p, 1
+	default:
+		return false
+	}
+	if len(ph.Edges) != 2 {
+		return false
+	}
+	var init ssa.Value
+	dec := false
+	for _, ed := range ph.Edges {
+		if b, ok := ed.(*ssa.BinOp); ok && b.Op == token.SUB && b.X == ssa.Value(ph) && isConst(b.Y, 1) {
+			dec = true
+		} else {
+			init = ed
+		}
+	}
+	if !dec || init == nil {
+		return false
+	}
+	// init = NF - c
+	var nf ssa.Value
+	if c == 1 {
+		b, ok := init.(*ssa.BinOp)
+		if !ok || b.Op != token.SUB || !isConst(b.Y, 1) {
+			return false
+		}
+		nf = b.X
+	} else {
+		nf = init
+	}
+	// the loop continues while i >= 1 - c
+	ifi, ok := ph.Block().Instrs[len(ph.Block().Instrs)-1].(*ssa.If)
+	if !ok {
+		return false
+	}
+	cond, ok := ifi.Cond.(*ssa.BinOp)
+	if !ok || cond.X != ssa.Value(ph) {
+		return false
+	}
+	k, ok := cond.Y.(*ssa.Const)
+	if !ok || k.Value == nil || k.Value.Kind() != constant.Int {
+		return false
+	}
+	last := k.Int64()
+	switch cond.Op {
+	case token.GEQ:
+	case token.GTR:
+		last++
+	default:
+		return false
+	}
+	if last != 1-c {
+		return false
+	}
+	// the slice written has length 1 + NF
+	ms, ok := ia.X.(*ssa.MakeSlice)
+	if !ok {
+		return false
+	}
+	l, ok := ms.Len.(*ssa.BinOp)
+	if !ok || l.Op != token.ADD {
+		return false
+	}
+	return (isConst(l.X, 1) && l.Y == nf) || (isConst(l.Y, 1) && l.X == nf)
 }
